@@ -36,12 +36,17 @@ ASSUME = [
     "report call stays suspended (it can do nothing else) until a slot is free. An answer that is refused or dropped there "
     "leaves the request unanswered (judged at quiescence); a lost INBOUND substream is only recorded (inbound:err / "
     "deliver:err in full_inbox_deliveries), the statement does not demand its delivery",
+    "a dropped protocol: its TransportService is dropped (inbox, handles, tracker gone) while the ProtocolSet of every "
+    "later scripted connection still holds its sender, as the snapshot real transports hold does; its own requests are void "
+    "from then on. The order in which report_connection_established polls its sends follows the protocol map's "
+    "per-process random order, so which side of the dropped protocol a live one is on varies from execution to execution; "
+    "the full-inbox variant makes the live send pending deterministically",
     "TLC bounds: see model_runs / generation in the evidence (1-2 peers, up to 3 connection ids per peer, up to 3 open "
     "requests, inbound substreams, force_close, keep-alive expiry, window between report_connection_closed and task end)",
 ]
 
 BASE = {"Peers": {"p1"}, "Svc": {0, 1}, "KAs": "<- KADef", "MaxCid": 3, "MaxPerPeer": 3, "MaxOverlap": 2,
-        "MaxOpens": 0, "MaxInb": 0, "MaxFc": 0, "MaxExp": 0, "MaxFull": 0, "PCap": 4096, "Eager": "<- NoEager", "EagerCmd": False,
+        "MaxOpens": 0, "MaxInb": 0, "MaxFc": 0, "MaxExp": 0, "MaxFull": 0, "MaxDropProto": 0, "PCap": 4096, "Eager": "<- NoEager", "EagerCmd": False,
         "SplitClose": False, "Clog": False, "Bug": "none"}
 MC_INV = ["SPECIFICATION Spec", "INVARIANTS MonOK QuiesceOK IdsBelow NoPanicInScope", "VIEW View", "CHECK_DEADLOCK FALSE"]
 NEG_INV = ["SPECIFICATION Spec", "INVARIANTS MonOK QuiesceOK NoPanicInScope", "VIEW View", "CHECK_DEADLOCK FALSE"]
@@ -86,7 +91,9 @@ def mc_configs(ctx):
             # two peers
             ("peers2", cfg(Peers=P2, MaxPerPeer=2, MaxOpens=2, Eager="= {0, 1}", EagerCmd=True)),
             # substream results handed to a protocol whose inbox is full (suspended report call, Deliver)
-            ("full", cfg(MaxCid=2, MaxPerPeer=2, MaxOpens=2, MaxInb=1, MaxFull=1, Eager=E1)),
+            ("full", cfg(MaxCid=2, MaxPerPeer=2, MaxOpens=1, MaxInb=1, MaxFull=1, Eager=E1)),
+            # the user drops a protocol; connections are established afterwards, also into a full inbox of the live one
+            ("dropq", cfg(MaxCid=2, MaxPerPeer=2, MaxInb=1, MaxFull=1, MaxDropProto=1)),
         ]
     return [
         ("life3", cfg(MaxCid=4, MaxPerPeer=4, MaxOverlap=3, MaxInb=1, Clog=True)),
@@ -100,6 +107,8 @@ def mc_configs(ctx):
         ("peers2x3", cfg(Peers=P2, MaxCid=5, MaxPerPeer=3, MaxOpens=2, Eager="= {0, 1}", EagerCmd=True)),
         ("full", cfg(MaxCid=2, MaxPerPeer=2, MaxOpens=2, MaxInb=1, MaxFull=1, Eager=E1)),
         ("full_lazy", cfg(MaxCid=2, MaxPerPeer=2, MaxOpens=2, MaxFull=2)),
+        ("dropq", cfg(MaxCid=2, MaxPerPeer=2, MaxOpens=1, MaxInb=1, MaxFull=1, MaxDropProto=1)),
+        ("dropq3", cfg(MaxCid=3, MaxPerPeer=3, MaxInb=1, MaxFull=1, MaxDropProto=1)),
     ]
 
 
@@ -115,6 +124,7 @@ def gen_configs(ctx):
             ("keepalive", cfg(MaxCid=2, MaxPerPeer=2, MaxOpens=1, MaxExp=2, Eager=E1, EagerCmd=True)),
             ("peers2", cfg(Peers=P2, MaxCid=2, MaxPerPeer=2, MaxOpens=1, Eager=E1)),
             ("full", cfg(MaxCid=2, MaxPerPeer=2, MaxOpens=1, MaxInb=1, MaxFull=1, Eager=E1)),
+            ("dropq", cfg(MaxCid=2, MaxPerPeer=2, MaxInb=1, MaxFull=1, MaxDropProto=1)),
         ]
     return [
         ("life", cfg(MaxInb=1, Clog=True)),
@@ -125,6 +135,7 @@ def gen_configs(ctx):
         ("peers2", cfg(Peers=P2, MaxCid=2, MaxPerPeer=2, MaxOpens=1, MaxInb=1, Eager=E1)),
         ("full", cfg(MaxCid=2, MaxPerPeer=2, MaxOpens=1, MaxInb=1, MaxFull=1, Eager=E1)),
         ("full_lazy", cfg(MaxCid=1, MaxPerPeer=1, MaxOpens=2, MaxInb=1, MaxFull=2)),
+        ("dropq", cfg(MaxCid=2, MaxPerPeer=2, MaxInb=1, MaxFull=1, MaxDropProto=1)),
     ]
 
 
@@ -217,6 +228,17 @@ FIXED = [
                                     S("deliver", c=1), S("poll", q=0), S("deliver", c=1), S("poll", q=0),
                                     S("reply", c=1, id=1, ok=False, full=True), S("poll", q=0), S("deliver", c=1), S("poll", q=0),
                                     S("inbound", c=1, q=1, full=True), S("poll", q=1), S("deliver", c=1), S("poll", q=1)]},
+    # the user drops one protocol; later connections must still be announced to the other one - with room in its inbox
+    # and with its inbox full at that moment (the report call waits for it) - and stay usable
+    {"ka": [True, False], "stims": [S("est", p="p1", c=1, full=-1), S("poll", q=0), S("poll", q=1), S("dropproto", q=1),
+                                    S("est", p="p1", c=2, full=-1), S("poll", q=0), S("inbound", c=2, q=0), S("poll", q=0),
+                                    S("close", c=1, clog=-1), S("drop", c=1), S("poll", q=0),
+                                    S("est", p="p2", c=3, full=0), S("poll", q=0), S("deliver", c=3), S("poll", q=0),
+                                    S("open", q=0, p="p2"), S("est", p="p3", c=4, full=-1), S("poll", q=0)]},
+    {"ka": [True, True], "stims": [S("est", p="p1", c=1, full=-1), S("dropproto", q=0), S("poll", q=1),
+                                   S("est", p="p2", c=2, full=-1), S("poll", q=1), S("est", p="p3", c=3, full=1), S("poll", q=1),
+                                   S("deliver", c=3), S("poll", q=1), S("est", p="p1", c=4, full=-1), S("poll", q=1),
+                                   S("open", q=1, p="p3"), S("cmd", c=3), S("reply", c=3, id=0, ok=True), S("poll", q=1)]},
 ]
 
 
@@ -235,16 +257,28 @@ def classify(seg, idx, reason):
         # real nodes: transport and scenario kind are part of the signature
         return "net-%s-%s%s" % (head.get("transport", "tcp"), "open-timeout-" if head.get("kind") == "timeout" else "", slug(reason))
     if reason.startswith("accepted open request never answered"):
-        # why: did a connection try to hand the answer over and get refused?
+        # why: did a connection try to hand the answer over and get refused? (refusals by a protocol the user
+        # had dropped do not count: its requests are void)
+        gone, refused = set(), []
         for ln in seg[:idx]:
             d = json.loads(ln)
-            if d.get("e") == "step" and d["s"]["a"] in ("reply", "deliver") and d["s"].get("what", "reply") == "reply" \
-                    and d["ret"].get("k") == "err":
-                return "open-answer-refused-%s" % ("by-full-protocol-inbox" if "Clogged" in d["ret"].get("err", "") else "by-protocol-channel")
+            if d.get("e") != "step":
+                continue
+            if d["s"]["a"] == "dropproto":
+                gone.add(d["s"]["q"])
+            if d["s"]["a"] in ("reply", "deliver") and d["s"].get("what", "reply") == "reply" and d["ret"].get("k") == "err" \
+                    and d["s"].get("q") not in gone:
+                refused.append(d["ret"].get("err", ""))
+        if any("Clogged" in e for e in refused):
+            return "open-answer-refused-by-full-protocol-inbox"
+        if refused:
+            return "open-answer-refused-by-protocol-channel"
+    # the user dropped a protocol earlier in this execution (the remaining protocols must not notice)
+    after_drop = "-after-protocol-drop" if any('"a":"dropproto"' in ln for ln in seg[:idx]) else ""
     if reason == "panic":
         msg = ev.get("ret", {}).get("msg", "")
-        return "panic-in-%s%s" % (s.get("a", "?"), "-debug-assert" if "assertion failed" in msg else "")
-    return slug(reason)
+        return "panic-in-%s%s%s" % (s.get("a", "?"), "-debug-assert" if "assertion failed" in msg else "", after_drop)
+    return slug(reason) + after_drop
 
 
 def pipeline(ctx):
@@ -358,7 +392,7 @@ def evidence(mc, gstats, summ, lines, nseg, nev, drift):
 
 NEEDED_RESULTS = ["poll:est", "poll:closed", "poll:opened", "poll:failed", "open:ok", "open:err", "cmd:open", "cmd:none",
                   "cmd:force", "reply:ok", "inbound:ok", "inbound:nopermit", "drop:ok", "expire:ok", "fclose:ok", "close:ok",
-                  "reply:blocked", "inbound:blocked", "deliver:ok", "deliver:blocked"]
+                  "reply:blocked", "inbound:blocked", "deliver:ok", "deliver:blocked", "dropproto:ok", "est:blocked"]
 
 
 def check(ctx):
@@ -406,6 +440,8 @@ NEG = [
     ("id_reuse", cfg(MaxCid=1, MaxPerPeer=1, MaxOpens=2, Bug="id_reuse"), "MonOK", "identifier reused"),
     ("mgr_first", cfg(MaxInb=1, Bug="mgr_first", Eager=E1), "MonOK|NoPanicInScope", "not connected|panic"),
     # try_send instead of send().await when handing a substream result to a protocol with a full inbox
+    # report_connection_established leaves its send loop at the first failed send (a dropped protocol)
+    ("est_break", cfg(MaxCid=1, MaxPerPeer=1, MaxInb=1, MaxFull=1, MaxDropProto=1, Bug="est_break"), "MonOK|NoPanicInScope", "not connected|panic"),
     ("drop_on_full", cfg(MaxCid=1, MaxPerPeer=1, MaxOpens=1, MaxFull=1, Bug="drop_on_full"), "QuiesceOK", None),
 ]
 
@@ -488,7 +524,8 @@ def selftest(ctx):
                 lambda e, i2=i2: e["ret"].update(id=earlier_id(i2)), "identifier reused")
     else:
         ok = False
-    corrupt("delivery into a full inbox dropped", isret("deliver", "ok"), lambda e: e["ret"].update(k="err"),
+    corrupt("delivery into a full inbox dropped", lambda d: isret("deliver", "ok")(d) and d["s"]["what"] in ("reply", "inbound"),
+            lambda e: e["ret"].update(k="err"),
             "does not match|never answered|nobody reported")
     corrupt("manager told early", isret("close", "ok"), lambda e: e["ret"].update(early=True), "manager told")
     corrupt("answer to the wrong protocol", lambda d: isret("poll", "failed")(d) or (isret("poll", "opened")(d) and d["ret"]["dirn"] == "out"),
